@@ -1,8 +1,9 @@
 /-
 Model of the array-backed morphology (`neuroml/arraymorph.py`: `ArrayMorphology`, `SegmentList`) and of its
 HDF5 file format (`neuroml/writers.py: ArrayMorphWriter`, `neuroml/loaders.py: ArrayMorphLoader`).
-Mathlib-free, executable, bug-for-bug (says what the code DOES on the repaired tree; the two pre-repair
-behaviours are kept as `toNeuromlMorphologyOld` / `writeDocOld` for the witness theorems).
+Mathlib-free, executable, bug-for-bug (says what the code DOES on the repaired tree; the pre-repair
+behaviours are kept as `toNeuromlMorphologyOld` / `writeDocOld` / `toRootObjOld`, `stepOld`, `runOld` /
+`nodeMorphsOld`, `loadOld` / `writeXDocOld` for the witness theorems about the defects that were repaired).
 
 Conventions
 * a numpy array is a `List`; indexing is Python/numpy indexing (`getI`/`setI`: a negative index counts from
@@ -15,7 +16,8 @@ Conventions
 * `SegmentList.instantiated_segments` (a per-object cache of segment objects, keyed by the SEGMENT index exactly
   as it was passed to `segments[...]`) IS modelled (second pass): `Obj` = arrays + cache, `step`/`run` execute a
   HISTORY of calls on one object (`getItem` fills and reads the cache, iteration goes through `getItem`,
-  `to_root` rewrites the connectivity and leaves the cache alone, nothing else touches it).  The cache-free
+  `to_root` rewrites the connectivity and EMPTIES the cache — `fixes/C18-toroot-invalidates-cache.patch`; before
+  that repair it left the cache alone: `toRootObjOld` —, nothing else touches it).  The cache-free
   functions (`viewGet`, `viewIter`, …) are the array-defined values the histories are compared with (`specRun`).
 -/
 namespace NmlVerif.ArrayMorph
@@ -26,10 +28,10 @@ inductive Err where
   | indexError        -- numpy/Python `IndexError`
   | outOfFuel         -- the `while` loop of `to_root` did not stop within the fuel (= does not terminate)
   | nodeError         -- PyTables `NodeError`: the group already has a child of that name
-  | noSuchNode        -- PyTables `NoSuchNodeError`: a group that is read as a morphology lacks an array
+  | noSuchNode        -- PyTables `NoSuchNodeError`: a group that is read as a morphology lacks an array (pre-repair loader only)
   | unboundLocal      -- (pre-repair writer only) `UnboundLocalError: cell`
   | keyError          -- dict lookup of a missing key (only reachable in generated code, `Gen/ArrayMorph.lean`)
-  | attributeError    -- attribute access on `None` / on an object of another class (document writer)
+  | attributeError    -- attribute access on `None` / on an object of another class (pre-repair document writer only)
 deriving Repr, DecidableEq, Inhabited
 
 abbrev Vec4 := Int × Int × Int × Int
@@ -213,11 +215,19 @@ def iterObj (o : Obj) : List Segment × Obj := iterFrom (iterFuel o) o 0
 /-- `ArrayMorphology.valid_ids`: every cached segment's id equals its key (truthiness of the product) -/
 def validIds (o : Obj) : Bool := o.cache.all (fun e => decide (e.2.id = e.1))
 
-/-- `ArrayMorphology.to_root(index)` on the object: rewrites `connectivity`, does NOT touch the cache (so
-    segments handed out earlier, and kept by the cache, keep their old parent).  When the call raises the
-    object is left as it was in the model (the code may have done part of its in-place writes: a history is
-    not continued after a failed `to_root`). -/
+/-- `ArrayMorphology.to_root(index)` on the object: rewrites `connectivity` and then empties the segment cache
+    (`self.segments.instantiated_segments.clear()`, the last statement: segments built from the old connectivity
+    are not handed out again).  When the call raises, the `clear()` is not reached; the object is left as it was
+    in the model (the code may have done part of its in-place writes: a history is not continued after a failed
+    `to_root`). -/
 def toRootObj (o : Obj) (index : Int) : Except Err Unit × Obj :=
+  match toRoot o.arr index with
+  | .ok a' => (.ok (), { arr := a', cache := [] })
+  | .error e => (.error e, o)
+
+/-- `to_root` BEFORE `fixes/C18-toroot-invalidates-cache.patch`: the cache survives the re-rooting (so segments
+    handed out earlier, and kept by the cache, keep their old parent) -/
+def toRootObjOld (o : Obj) (index : Int) : Except Err Unit × Obj :=
   match toRoot o.arr index with
   | .ok a' => (.ok (), { o with arr := a' })
   | .error e => (.error e, o)
@@ -263,6 +273,11 @@ def Op.usesCache : Op → Bool
 def Op.isToRoot : Op → Bool
   | .toRoot _ => true
   | _ => false
+
+/-- a `to_root` call names a vertex of a morphology with `n` vertices (other calls: no condition) -/
+def Op.rootInRange (n : Nat) : Op → Bool
+  | .toRoot j => decide (0 ≤ j) && decide (j < (n : Int))
+  | _ => true
 
 /-- one call on the object -/
 def step (o : Obj) : Op → Res × Obj
@@ -331,20 +346,15 @@ structure PlainMorph where
   segments : List Segment
 deriving Repr, DecidableEq, Inhabited
 
-/-! the proposed repair `fixes/C18-toroot-invalidates-cache.patch`: `to_root` also empties the cache -/
+/-! the history semantics BEFORE `fixes/C18-toroot-invalidates-cache.patch` (witness theorems only) -/
 
-def toRootObjFixed (o : Obj) (index : Int) : Except Err Unit × Obj :=
-  match toRoot o.arr index with
-  | .ok a' => (.ok (), { arr := a', cache := [] })
-  | .error e => (.error e, o)
-
-def stepFixed (o : Obj) : Op → Res × Obj
-  | .toRoot j => let r := toRootObjFixed o j; (.unit r.1, r.2)
+def stepOld (o : Obj) : Op → Res × Obj
+  | .toRoot j => let r := toRootObjOld o j; (.unit r.1, r.2)
   | op => step o op
 
-def runFixed : Obj → List Op → List Res × Obj
+def runOld : Obj → List Op → List Res × Obj
   | o, [] => ([], o)
-  | o, op :: ops => let r := stepFixed o op; let rs := runFixed r.2 ops; (r.1 :: rs.1, rs.2)
+  | o, op :: ops => let r := stepOld o op; let rs := runOld r.2 ops; (r.1 :: rs.1, rs.2)
 
 /-! ### the file format -/
 
@@ -438,8 +448,20 @@ def writeDocOld (d : Doc) : Except Err H5 :=
 
 def nameLe (a b : String × Node) : Bool := decide (a.1 ≤ b.1)
 
-/-- what `ArrayMorphLoader.load` appends for one child of the root group -/
-def nodeMorphs : String × Node → Except Err (List Arr)
+/-- what `ArrayMorphLoader.load` appends for one child of the root group: a group whose child `vertices` is an
+    ARRAY (`isinstance(getattr(node, "vertices", None), tables.Array)`) is a morphology group; anything else is a
+    cell group and every child of it is read as a morphology group (PyTables iterates children by name) -/
+def nodeMorphs : String × Node → List Arr
+  | (_, .morph a) => [a]
+  | (_, .cell ch) => (ch.mergeSort (fun x y => decide (x.1 ≤ y.1))).map (·.2)
+
+/-- `ArrayMorphLoader.load(path).morphology` as array triples; PyTables iterates children by name.  On the files
+    of the model (`H5`: morphology groups and cell groups of morphology groups) the loader cannot raise. -/
+def load (f : H5) : List Arr := (f.mergeSort nameLe).flatMap nodeMorphs
+
+/-! the loader BEFORE `fixes/C18-loader-vertices-is-array.patch`: `hasattr(node, "vertices")` (witness only) -/
+
+def nodeMorphsOld : String × Node → Except Err (List Arr)
   | (_, .morph a) => .ok [a]                       -- `hasattr(node, "vertices")`
   | (_, .cell ch) =>
     -- a cell group that has a child called "vertices" is itself taken for a morphology and lacks the arrays
@@ -453,16 +475,17 @@ def concatE : List (Except Err (List Arr)) → Except Err (List Arr)
     | .error e => .error e
     | .ok ys => .ok (xs ++ ys)
 
-/-- `ArrayMorphLoader.load(path).morphology` as array triples; PyTables iterates children by name -/
-def load (f : H5) : Except Err (List Arr) :=
-  concatE ((f.mergeSort nameLe).map nodeMorphs)
+def loadOld (f : H5) : Except Err (List Arr) :=
+  concatE ((f.mergeSort nameLe).map nodeMorphsOld)
 
 /-! ### documents whose cells / morphologies need not be array morphologies
 
 A `NeuroMLDocument` may hold cells WITHOUT an embedded morphology (`<cell morphology="m"/>` refers to a stand-alone
 one — the reason stand-alone morphologies exist), and plain `neuroml.Morphology` objects.  `ArrayMorphWriter`
-reads `morphology.id` / `array_morph.vertices` on them: `AttributeError`, raised before the group of that
-cell / morphology is created. -/
+skips them (`if not isinstance(morphology, ArrayMorphology): continue`, `fixes/C18-writer-skips-non-array.patch`):
+they have no arrays, the format has nothing to store for them.  Their POSITION still counts for the default
+names (`enumerate` runs over all of `document.cells` / `document.morphology`).  Before that repair the writer read
+`morphology.id` / `array_morph.vertices` on them: `AttributeError` (`writeXDocOld`). -/
 
 /-- what `cell.morphology` is -/
 inductive CellMorph where
@@ -497,7 +520,7 @@ def writeXCells : Nat → List XCell → H5 → Except Err H5
       match writeSingleCell m f (some (dflt c.id "Cell" k)) with
       | .error e => .error e
       | .ok f' => writeXCells (k + 1) cs f'
-    | _ => .error .attributeError        -- `None.id` / `Morphology.vertices`
+    | _ => writeXCells (k + 1) cs f          -- `continue`
 
 /-- second loop on any stand-alone morphologies -/
 def writeXMorphs : Nat → List XMorph → H5 → Except Err H5
@@ -508,7 +531,7 @@ def writeXMorphs : Nat → List XMorph → H5 → Except Err H5
       match writeSingleCell { m with id := some (dflt m.id "Morphology" k) } f none with
       | .error e => .error e
       | .ok f' => writeXMorphs (k + 1) ms f'
-    | .plain => .error .attributeError
+    | .plain => writeXMorphs (k + 1) ms f    -- `continue`
 
 /-- `ArrayMorphWriter.write(document, path)` for any document -/
 def writeXDoc (d : XDoc) : Except Err H5 :=
@@ -516,18 +539,82 @@ def writeXDoc (d : XDoc) : Except Err H5 :=
   | .error e => .error e
   | .ok f => writeXMorphs 0 d.morphs f
 
-/-- the proposed loader repair (`fixes/C18-loader-vertices-is-array.patch`): a root child is a morphology group
-    only when its child `vertices` is an ARRAY; a cell group is always read through its children -/
-def nodeMorphsFixed : String × Node → List Arr
-  | (_, .morph a) => [a]
-  | (_, .cell ch) => (ch.mergeSort (fun x y => decide (x.1 ≤ y.1))).map (·.2)
+/-! ### aliasing: one `ArrayMorphology` object used by several members of a document
 
-def loadFixed (f : H5) : List Arr := (f.mergeSort nameLe).flatMap nodeMorphsFixed
+`morphology.id = "Morphology" + str(default_id)` in `__write_neuroml_document` is an assignment ON THE OBJECT: when
+the same `ArrayMorphology` is the morphology of two cells (cells of one population), or of a cell and also a member
+of `document.morphology`, every later occurrence is written under the name the first one was given. -/
 
-/-! the proposed writer repair (`fixes/C18-writer-skips-non-array.patch`): cells / stand-alone morphologies that
-    are not array morphologies are skipped (their position still counts for the default names) -/
+/-- an occurrence of an `ArrayMorphology` in a document; `key` identifies the Python OBJECT (occurrences with the same
+    key are the same object, `m` is the object as it is before the writer runs) -/
+structure Occ where
+  key : Nat
+  m : Morph
+deriving Repr, DecidableEq, Inhabited
 
-def writeXCellsFixed : Nat → List XCell → H5 → Except Err H5
+inductive ACellMorph where
+  | none
+  | plain
+  | array (o : Occ)
+deriving Repr, DecidableEq, Inhabited
+
+structure ACell where
+  id : Option String
+  morph : ACellMorph
+deriving Repr, DecidableEq, Inhabited
+
+inductive AMorph where
+  | plain
+  | array (o : Occ)
+deriving Repr, DecidableEq, Inhabited
+
+structure ADoc where
+  cells : List ACell
+  morphs : List AMorph
+deriving Repr, DecidableEq, Inhabited
+
+/-- the ids the writer has assigned so far (object key ↦ id), newest first -/
+abbrev Ids := List (Nat × String)
+
+/-- `morphology.id` of an occurrence at this moment -/
+def curId (ids : Ids) (o : Occ) : Option String :=
+  match ids.lookup o.key with
+  | some s => some s
+  | none => o.m.id
+
+/-- first loop of `__write_neuroml_document`, with the id assignments on the morphology objects -/
+def writeACells : Nat → Ids → List ACell → H5 → Except Err (H5 × Ids)
+  | _, ids, [], f => .ok (f, ids)
+  | k, ids, c :: cs, f =>
+    match c.morph with
+    | .array o =>
+      let nm := dflt (curId ids o) "Morphology" k          -- `if morphology.id is None: morphology.id = ...`
+      match writeSingleCell { id := some nm, arr := o.m.arr } f (some (dflt c.id "Cell" k)) with
+      | .error e => .error e
+      | .ok f' => writeACells (k + 1) ((o.key, nm) :: ids) cs f'
+    | _ => writeACells (k + 1) ids cs f
+
+/-- second loop -/
+def writeAMorphs : Nat → Ids → List AMorph → H5 → Except Err H5
+  | _, _, [], f => .ok f
+  | k, ids, x :: ms, f =>
+    match x with
+    | .array o =>
+      let nm := dflt (curId ids o) "Morphology" k
+      match writeSingleCell { id := some nm, arr := o.m.arr } f none with
+      | .error e => .error e
+      | .ok f' => writeAMorphs (k + 1) ((o.key, nm) :: ids) ms f'
+    | .plain => writeAMorphs (k + 1) ids ms f
+
+/-- `ArrayMorphWriter.write(document, path)` for a document whose members may share morphology objects -/
+def writeADoc (d : ADoc) : Except Err H5 :=
+  match writeACells 0 [] d.cells [] with
+  | .error e => .error e
+  | .ok (f, ids) => writeAMorphs 0 ids d.morphs f
+
+/-! the document writer BEFORE `fixes/C18-writer-skips-non-array.patch` (witness only) -/
+
+def writeXCellsOld : Nat → List XCell → H5 → Except Err H5
   | _, [], f => .ok f
   | k, c :: cs, f =>
     match c.morph with
@@ -535,22 +622,22 @@ def writeXCellsFixed : Nat → List XCell → H5 → Except Err H5
       let m : Morph := { m0 with id := some (dflt m0.id "Morphology" k) }
       match writeSingleCell m f (some (dflt c.id "Cell" k)) with
       | .error e => .error e
-      | .ok f' => writeXCellsFixed (k + 1) cs f'
-    | _ => writeXCellsFixed (k + 1) cs f
+      | .ok f' => writeXCellsOld (k + 1) cs f'
+    | _ => .error .attributeError        -- `None.id` / `Morphology.vertices`
 
-def writeXMorphsFixed : Nat → List XMorph → H5 → Except Err H5
+def writeXMorphsOld : Nat → List XMorph → H5 → Except Err H5
   | _, [], f => .ok f
   | k, x :: ms, f =>
     match x with
     | .array m =>
       match writeSingleCell { m with id := some (dflt m.id "Morphology" k) } f none with
       | .error e => .error e
-      | .ok f' => writeXMorphsFixed (k + 1) ms f'
-    | .plain => writeXMorphsFixed (k + 1) ms f
+      | .ok f' => writeXMorphsOld (k + 1) ms f'
+    | .plain => .error .attributeError
 
-def writeXDocFixed (d : XDoc) : Except Err H5 :=
-  match writeXCellsFixed 0 d.cells [] with
+def writeXDocOld (d : XDoc) : Except Err H5 :=
+  match writeXCellsOld 0 d.cells [] with
   | .error e => .error e
-  | .ok f => writeXMorphsFixed 0 d.morphs f
+  | .ok f => writeXMorphsOld 0 d.morphs f
 
 end NmlVerif.ArrayMorph
